@@ -1238,7 +1238,7 @@ pub mod ed25519_ex {
 /// HOW THE INPUTS ARE SPLIT (as coded): `sig_data` must be the XDR of a `WebAuthnSigData` (else `expect` traps);
 /// the public key is `key_data[0..65]` (`extract_from_bytes(.., 0..65)`; fewer than 65 bytes: `expect` traps),
 /// everything after byte 65 (the credential id, any length) is IGNORED; then `webauthn::verify(payload, key, sig)`.
-/// XDR decoding: `xdr::preset_from_xdr(bytes, value)` pins "these (arbitrary) bytes decode to this (arbitrary) value"
+/// XDR decoding: `xdr::preset_from_xdr(bytes, value)` pins "these bytes decode to this (arbitrary) value"
 /// (a struct with two `Bytes` members cannot be serialised into one model `Bytes`); all other bytes do not decode.
 /// As in `verifiers::wa`, the client-data JSON is a CONCRETE document, everything else is symbolic.
 #[cfg(feature = "utf8stub")]
@@ -1262,7 +1262,7 @@ pub mod webauthn_ex {
         pub sig_data: Bytes,
     }
     /// document `which` of `verifiers::wa::doc`; key_data = `n` arbitrary bytes (n symbolic, <= 80); `a.pub_key` =
-    /// its first 65 bytes (meaningful when n >= 65); sig_data = 8 arbitrary bytes pinned to decode to `a.sig`
+    /// its first 65 bytes (meaningful when n >= 65); sig_data = 8 fixed bytes pinned to decode to the ARBITRARY `a.sig`
     fn mk_input(e: &Env, which: u8) -> Input {
         let mut cd = [0u8; DOC_MAX];
         let len = doc(which, &mut cd);
@@ -1278,8 +1278,10 @@ pub mod webauthn_ex {
             k += 1;
         }
         a.pub_key = BytesN::from_array(e, &pk);
-        let sd: [u8; 8] = kani::any();
-        let sig_data = Bytes::from_array(e, &sd);
+        // CONCRETE bytes: the contract looks at sig_data only through from_xdr, and a symbolic comparison with the
+        // pinned bytes would merge the decoded value with the not-decodable path (the concrete JSON text would become
+        // an if-then-else term and the parser's cursor symbolic)
+        let sig_data = Bytes::from_array(e, b"SIGDATA1");
         preset_from_xdr(&sig_data, &a.sig);
         Input { a, key_data, n, sig_data }
     }
@@ -1335,38 +1337,54 @@ pub mod webauthn_ex {
         witness!(i.n > 65, "accepted_with_credential_id");
         kani::assert(!world().overflow, "MODEL-OVERFLOW: flag set");
     }
-    /// fewer than 65 bytes of key_data / sig_data that is not the encoding of a WebAuthnSigData / rejecting oracle:
-    /// never accepted
+    /// fewer than 65 bytes of key_data: never accepted (`extract_from_bytes(.., 0..65)` is `None`, `expect` traps)
     #[kani::proof]
     #[kani::stub(core::str::from_utf8, crate::verifiers::from_utf8_stub)]
     #[kani::unwind(200)]
-    pub fn verify_never() {
+    pub fn verify_short_key() {
         let e = Env::default();
-        let kind: u8 = kani::any();
-        kani::assume(kind < 3);
-        let mut i = mk_input(&e, 0);
-        match kind {
-            0 => kani::assume(i.n < 65),
-            1 => {
-                // other bytes than the pinned ones
-                let other: [u8; 8] = kani::any();
-                let o = Bytes::from_array(&e, &other);
-                kani::assume(o != i.sig_data);
-                i.sig_data = o;
-            }
-            _ => model::preset_call::<()>(0, true, &()),
-        }
-        witness!(kind == 0 && i.n == 64, "reached_call_64_byte_key");
-        witness!(kind == 1, "reached_call_undecodable");
-        witness!(kind == 2, "reached_call_rejecting_oracle");
+        let i = mk_input(&e, 0);
+        kani::assume(i.n < 65);
+        witness!(i.n == 64, "reached_call_64_byte_key");
+        witness!(i.n == 0, "reached_call_empty_key");
         let _ = <Ex as Verifier>::verify(&e, i.a.payload.clone(), i.key_data.clone(), i.sig_data.clone());
-        if kind == 0 {
-            prop!(false, "C18.webauthn_example.verify.key_data_below_65_bytes_never_accepted");
-        } else if kind == 1 {
-            prop!(false, "C18.webauthn_example.verify.undecodable_sig_data_never_accepted");
-        } else {
-            prop!(false, "C18.webauthn_example.verify.invalid_signature_never_accepted");
-        }
+        prop!(false, "C18.webauthn_example.verify.key_data_below_65_bytes_never_accepted");
+    }
+    /// sig_data that is not the encoding of a WebAuthnSigData (other bytes than the pinned ones: same length with
+    /// another content, or another length): never accepted
+    #[kani::proof]
+    #[kani::stub(core::str::from_utf8, crate::verifiers::from_utf8_stub)]
+    #[kani::unwind(200)]
+    pub fn verify_undecodable_same_length() {
+        let e = Env::default();
+        let i = mk_input(&e, 0);
+        kani::assume(i.n >= 65);
+        witness!(true, "reached_call");
+        let _ = <Ex as Verifier>::verify(&e, i.a.payload.clone(), i.key_data.clone(), Bytes::from_array(&e, b"SIGDATA2"));
+        prop!(false, "C18.webauthn_example.verify.undecodable_sig_data_never_accepted");
+    }
+    #[kani::proof]
+    #[kani::stub(core::str::from_utf8, crate::verifiers::from_utf8_stub)]
+    #[kani::unwind(200)]
+    pub fn verify_undecodable_other_length() {
+        let e = Env::default();
+        let i = mk_input(&e, 0);
+        kani::assume(i.n >= 65);
+        witness!(true, "reached_call");
+        let _ = <Ex as Verifier>::verify(&e, i.a.payload.clone(), i.key_data.clone(), Bytes::from_array(&e, b"SIGDATA"));
+        prop!(false, "C18.webauthn_example.verify.undecodable_sig_data_never_accepted");
+    }
+    /// the oracle rejects: never accepted
+    #[kani::proof]
+    #[kani::stub(core::str::from_utf8, crate::verifiers::from_utf8_stub)]
+    #[kani::unwind(200)]
+    pub fn verify_oracle_rejects() {
+        let e = Env::default();
+        let i = mk_input(&e, 0);
+        model::preset_call::<()>(0, true, &());
+        witness!(i.n >= 65, "reached_call");
+        let _ = <Ex as Verifier>::verify(&e, i.a.payload.clone(), i.key_data.clone(), i.sig_data.clone());
+        prop!(false, "C18.webauthn_example.verify.invalid_signature_never_accepted");
     }
     /// a document of type "webauthn.create": never accepted (the library's type check is applied)
     #[kani::proof]
